@@ -462,6 +462,14 @@ func cmdCheck(args []string) int {
 			}
 			continue
 		}
+		if os.Getenv("UCFGVC_PROBE_PRE") != "" {
+			if strings.HasPrefix(j.o.Kind, "pre@") {
+				fmt.Printf("PROBE %s %s %s %s :: %s\n", j.status, j.o.Fn, j.o.Kind, relPos(j.o.Pos, *repo), j.o.Text)
+			}
+			if j.status != "unsat" {
+				continue
+			}
+		}
 		nObl++
 		if j.secs > 2 && j.status == "unsat" {
 			slow = append(slow, fmt.Sprintf("%s %.1fs", j.o.Name, j.secs))
